@@ -15,7 +15,9 @@ package coreutil
 //@ ensures [late-token-is-judged-late] imp(ok && w.lastNow - next >= 2000000000, w.overdueDuration >= 2000000000)
 //@ ensures [punctual-token-not-judged-late] imp(ok && w.overdueDuration >= 2000000000, w.lastNow - next >= 2000000000)
 //@ ensures [no-token-no-overdue] imp(!ok, w.overdueDuration == 0)
-//@ modifies w.overdueDuration, w.lastNow, w.timer, leftOf[w.sched], timerDeadline
+//@ ensures [one-token-per-success] imp(ok, ev(token) == old(ev(token)) + 1)
+//@ ensures [one-token-at-most] ev(token) - old(ev(token)) <= 1 && ev(token) >= old(ev(token))
+//@ modifies w.overdueDuration, w.lastNow, w.timer, leftOf[w.sched], timerDeadline, ev(token)
 
 //@ func (w *Waiter) IsSlowDown
 //@ props C04
